@@ -74,6 +74,8 @@ func ruleHostile(c *core.Ctx) {
 	for _, mb := range broadMembers(c.Tier, gen.DefaultConfig()) {
 		runMember(c, mb, ruleSet("A-PANIC", "A-GENERR"), 64, func(w *fam.World, fm *fam.FileModel) []fam.Issue { return nil })
 	}
+	// a referenced file is processed as a whole: an ungeneratable definition anywhere in it fails the run (also without $id)
+	ruleMultiSel(c, ruleSet("A-SILENT", "A-ROUTE", "A-GENERR"), 2, "two files without $id")
 	c.Floor("families", c.Counts["members"], 300, "valid family members generated without panic")
 }
 
